@@ -29,7 +29,14 @@ def markup_events(ctx, res, small=False):
         rnd = random.Random(ctx.seed)
         rnd.shuffle(docs)
         docs = docs[:120 if small else 450]
-    evs, _, _ = run_harness(ctx, "pub", "TestVerifMarkup", {"docs": docs, "widths": widths, "random": (60 if small else 150) if q else (600 if small else 3000)}, timeout=2400)
+    evs, mrc, mtxt = run_harness(ctx, "pub", "TestVerifMarkup", {"docs": docs, "widths": widths, "random": (60 if small else 150) if q else (600 if small else 3000)}, timeout=2400, allow_fail=True)
+    if mrc != 0:
+        first = [l for l in mtxt.splitlines() if "fatal error:" in l or l.startswith("panic:")][:1]
+        if not first or not evs:
+            raise vlib.Inconclusive("harness pub/TestVerifMarkup failed (rc=%d):\n%s" % (mrc, mtxt[-3000:]))
+        # the process died while documents were being rendered (side by side, at the end of the run): an observation like any other
+        evs.append({"ev": "robj", "obj": 999999, "markup": "markdown"})
+        evs.append({"ev": "render", "obj": 999999, "markup": "markdown", "w": 80, "digest": "none", "fresh": "none", "panic": True, "doc": "the process ended: " + first[0], "concurrent": True})
     res.extra["documents_from_tlc"] = len(docs)
     res.extra["width_sequences_from_tlc"] = len(widths)
     _cache[ctx.pid] = evs
